@@ -1219,7 +1219,7 @@ func genMutable(ctx TaggedStructContext, genMethod fp.Set[string]) fp.Set[string
 
 			if !strings.HasPrefix(v.Name, "_") {
 				if ts.Tags.Contains("@fp.JsonTag") || ts.Tags.Contains("@fp.Json") {
-					if !strings.Contains(tag, "json") {
+					if _, ok := reflect.StructTag(tag).Lookup("json"); !ok {
 						if tag != "" {
 							tag = tag + " "
 						}
